@@ -737,6 +737,53 @@ pub fn run_c15(ctx: &Ctx) -> i32 {
             }
         }
     });
+    // second observation point: the decomposition handed out in a sample's metadata is the routine's result for the
+    // L matrix handed out next to it (bit for bit)
+    {
+        use crate::sampler::*;
+        let cases: Vec<CaseSpec> = crate::sprops::fam_for(Tier::Quick, "C15").into_iter().step_by(3).collect();
+        let meta = par_for(cases.len(), |i, acc| {
+            let case = match Case::new(&cases[i]) {
+                Some(c) => c,
+                None => return,
+            };
+            let r = match route(&case, &case.base_kin()) {
+                Ok(r) => r,
+                Err(_) => return,
+            };
+            let order: Vec<usize> = (0..case.g.ne()).collect();
+            let roles = Roles { u: false, xi: true, p: true, ab: false, xi_moderate: true, xi_ladder: false };
+            for (x, _) in sector_points(&case, &order, 1, &roles) {
+                for stab in [None, Some(1e-6)] {
+                    let st = crate::obs::Settings { stability: stab, debug: false, metadata: true };
+                    if let crate::obs::Outcome::Ok(s) = r.sampler.sample(&x, &r.ed, &st) {
+                        if let Some(m) = &s.meta {
+                            acc.inc("evaluations");
+                            acc.inc("metadata_decompositions_compared");
+                            let same = match call_decompose(m.nl, &m.l_matrix, stab) {
+                                DecompObs::Ok(d) => {
+                                    let eq = |a: &[f64], b: &[f64]| a.len() == b.len() && a.iter().zip(b).all(|(x, y)| x.to_bits() == y.to_bits());
+                                    d.determinant.to_bits() == m.decomp.determinant.to_bits() && eq(&d.inverse, &m.decomp.inverse) && eq(&d.q_t, &m.decomp.q_transposed) && eq(&d.q_t_inv, &m.decomp.q_transposed_inverse)
+                                }
+                                _ => false,
+                            };
+                            if !same {
+                                acc.violate(
+                                    format!("C15/metadata-decomposition/{:016x}", fnv(&crate::obs::graph_json(&case.g).to_string())),
+                                    "the decomposition in the metadata is the routine's result for the L matrix of that sample",
+                                    "Metadata.decompoisiton_result differs from decompose_for_tropical(Metadata.l_matrix)".into(),
+                                    point_case(&case, &r.kin, &x, &st, json!({"prop": "C15"})),
+                                );
+                                return;
+                            }
+                        }
+                    }
+                }
+            }
+        });
+        acc.merge(meta);
+        acc.violations.sort_by(|a, b| (a.key.as_str(), a.what.as_str()).cmp(&(b.key.as_str(), b.what.as_str())));
+    }
     if acc.samples.is_empty() {
         acc.sample(json!({"note": "no sample"}));
     }
@@ -936,6 +983,13 @@ pub fn run_c16a(ctx: &Ctx, acc_out: &mut Acc) {
                 ill.push((2, vec![c + 1.0, c, c, c + 1.25]));
                 ill.push((3, vec![c + 1.0, c, c, c, c + 1.25, c, c, c, c + 1.5]));
             }
+            // badly scaled (graded) matrices: the residual is large while the evaluation bound stays small; both orders of the scales
+            for (a, b) in [(1e8, 1e-6), (1e6, 1e-8), (1e10, 1e-4), (1e4, 1e-12)] {
+                ill.push((2, vec![a, 3.0, 3.0, b]));
+                ill.push((2, vec![b, 3.0, 3.0, a]));
+                ill.push((3, vec![a, 3.0, 1.0, 3.0, 1.0, 2e-3, 1.0, 2e-3, b]));
+                ill.push((3, vec![b, 2e-3, 1.0, 2e-3, 1.0, 3.0, 1.0, 3.0, a]));
+            }
             for (n, d) in ill {
                 acc.hist("class", "ill-conditioned-definite");
                 for e in 3..=16 {
@@ -1058,13 +1112,35 @@ fn check_vec_pair<const D: usize>(a: &[f64; D], b: &[f64; D], s: f64, acc: &mut 
     if !cmpv(got, want) {
         bad("mul-by-ref", &got, &want);
     }
-    // +=
+    // +=, and the derived quantities of the UPDATED vector (a cached norm must not survive the update)
     let mut vc = va;
+    let _ = vc.squared();
     vc += vb;
     let want: [f64; D] = std::array::from_fn(|i| a[i] + b[i]);
     n += 1;
     if !cmpv(vc.get_elements(), want) {
         bad("add-assign", &vc.get_elements(), &want);
+    }
+    let mut w2 = 0.0f64;
+    for i in 0..D {
+        w2 += want[i] * want[i];
+    }
+    n += 1;
+    if !same(vc.squared(), w2) || !same(vc.dot(&vc), w2) {
+        bad("squared-after-add-assign", &[vc.squared()], &[w2]);
+    }
+    // element written through IndexMut, then squared
+    let mut vd = va;
+    let _ = vd.squared();
+    vd[D - 1] = b[0];
+    let mut w3 = 0.0f64;
+    for i in 0..D {
+        let c = if i == D - 1 { b[0] } else { a[i] };
+        w3 += c * c;
+    }
+    n += 1;
+    if !same(vd.squared(), w3) {
+        bad("squared-after-index-mut", &[vd.squared()], &[w3]);
     }
     // dot, accumulated from +0 at index 0 upward; symmetric
     let mut w = 0.0f64;
@@ -1228,7 +1304,7 @@ fn vec_deviations<const D: usize>(alpha: &[f64], dev: usize, part: usize, nparts
 fn check_scalar(acc: &mut Acc) {
     let sg = sigma();
     let mut extra = sg.clone();
-    extra.extend([2.0, 0.5, -2.5, 10.0, 1e-5, 700.0, -700.0, 1e300, f64::INFINITY, f64::NEG_INFINITY]);
+    extra.extend([2.0, 0.5, -2.5, 10.0, 1e-5, 700.0, -700.0, 1e300, f64::INFINITY, f64::NEG_INFINITY, 1e-308, -1e-308, 2f64.powi(-1023), 3e-310, 2f64.powi(-1074) * 3.0, 1e308, f64::NAN]);
     let mut bad = |op: &str, x: f64, y: f64, got: f64, want: f64| {
         acc.violate(
             format!("C20/scalar-{op}/{}/{}", bits(x), bits(y)),
